@@ -202,3 +202,31 @@ def c13(chk, P):
 
 def c20(chk, P):
     return
+
+
+def c07(chk, P):
+    chk.rule('R07.15', 'the packets a seek passes over are tracked by a live decoder: every call of vorbis_synthesis_trackonly / '
+             'vorbis_synthesis_blockin in the seek functions of vorbisfile.c is reached, from every consistent entry state of the '
+             'handle, only with the decoder and the block initialised (K5 state, same exploration as C03 R03.1).  Since the '
+             'decode calls answer a cleared object with an error code instead of crashing, a seek that discards its lead-in '
+             'packets before the decoder exists loses them without a trace: the sample count and granule reference miss them and '
+             'the trim of the link\'s last packet after the seek is computed from the wrong count -- the audio delivered runs past '
+             'the position reported')
+    K, api, uses, ready = scan(P)
+    n = 0
+    for (k, e), u in sorted(uses.items(), key=lambda kv: (kv[0][0], P.fn[kv[0][0]].ex[kv[0][1]]['loc'])):
+        F = P.fn[k]
+        if 'seek' not in F.name or u['callee'] not in ('vorbis_synthesis_trackonly', 'vorbis_synthesis_blockin'):
+            continue
+        cons = f'{u["callee"]}#{_ordinal(F, e, u["callee"])}:{"decoder" if u["need"] == "vd" else "block"}-live'
+        if not u['ok'] and (k, cons) in ASSUME:
+            chk.assumed('R07.15', k, cons, F.where(e), ASSUME[(k, cons)])
+            n += 1
+            continue
+        chk.ob('R07.15', k, cons, u['ok'], F.where(e),
+               'the object is initialised in every state that reaches the call' if u['ok'] else
+               f'reached with the {"decoder" if u["need"] == "vd" else "block"} cleared (entry state / ready_state at the call: '
+               f'{u["entries"][:2]}): the packet is dropped without updating the decoder\'s bookkeeping')
+        n += 1
+    chk.floor('R07.15', 2)
+    return n
